@@ -167,6 +167,19 @@ def check_geometry(case, ctx: Ctx):
             want = (pairs[1][idx[0]][1] - pairs[1][idx[0]][0]) * (pairs[2][idx[1]][1] - pairs[2][idx[1]][0])
             require(close(float(ss[idx]), want), "projected_surface_measure", f"cell {idx}: {ss[idx]!r} want {want!r} (radius {surf.radius!r})")
         ctx.label("cylinder_surface_projection")
+    if d == 1 and shape[0] >= 3 and case.get("select"):
+        # a selection (index array / mask) of an already inspected histogram reports its own geometry
+        keep = sorted(set(i % shape[0] for i in case["select"]))
+        if 0 < len(keep) < shape[0]:
+            sel = ctx.call("h[index array]", lambda: h[np.array(keep)]) if case.get("select_mask") is None else ctx.call("h[mask]", lambda: h[np.array([i in keep for i in range(shape[0])])])
+            sp = [pairs[0][i] for i in keep]
+            require(model.pairs_of(sel.bins) == sp, "selection_bins", f"{model.pairs_of(sel.bins)} vs {sp}")
+            wsum = sum(r - l for l, r in sp)
+            require(close(float(sel.total_width), wsum, 1e-12), "selection_total_width", f"{sel.total_width!r} vs {wsum!r} (bins {sp})")
+            ssz = np.asarray(sel.bin_sizes, dtype=float)
+            for i, cellp in enumerate(sp):
+                require(close(float(ssz[i]), measure(cls, [cellp])), "selection_bin_size", f"bin {i}")
+            ctx.label("selection")
     errs = np.asarray(h.errors)
     for got, e2v in zip(errs.ravel().tolist(), np.asarray(h.errors2).ravel().tolist()):
         require(abs(got - math.sqrt(float(e2v))) <= 2.0 ** -20 * max(1.0, got), "errors_sqrt", f"{got!r} vs sqrt({e2v!r})")
@@ -252,7 +265,8 @@ def geometry_cases(draw, tier="quick"):
         r = draw(st.sampled_from([None, 1, 2.5, 0.5, 7]))
         if r is not None:
             spec["meta"]["radius"] = r
-    return {"spec": spec, "full": full, "by": draw(st.sampled_from(["index", "name"])), "merge_axis": draw(st.integers(0, 3)), "merge_amount": draw(st.integers(2, 3))}
+    return {"spec": spec, "full": full, "by": draw(st.sampled_from(["index", "name"])), "merge_axis": draw(st.integers(0, 3)), "merge_amount": draw(st.integers(2, 3)),
+            "select": draw(st.lists(st.integers(0, 9), min_size=1, max_size=4)), "select_mask": draw(st.sampled_from([None, True]))}
 
 
 FINDINGS = []
